@@ -9,7 +9,7 @@ CONTENTS = {
     2: {"TABLE": {"BORDER": "RED", "HEADER": "BLUE:underline", "WARN": "YELLOW"}, "NAME": "MAGENTA",
         "NUMBER": "CYAN:bold", "KEYWORD": "g12", "ERROR": "(5,0,0)/BLUE", "WARN": "CYAN", "OK": "WHITE",
         "RECORD": {"NUMBER": "GREEN", "KEYWORD": "RED:crossed"}, "HDOC": {"ATTR": "RED", "FUNC_NAME": "g5", "TAG": "123"},
-        "TEXT": "", "X": {"A": "NAME:bold", "B": "YELLOW/BLUE"},
+        "TEXT": "g18/g3", "X": {"A": "NAME:bold", "B": "YELLOW/BLUE"},
         "GHIST": {"REPO": "RED", "HASH": "g7:bold", "VERSION": "(0,5,0)", "VER_NOT_MERGED": "BLUE:blink", "COMMIT_NAME": "WHITE/RED"}},
 }
 KINDS = ['pp', 'table', 'table2', 'record', 'help', 'leadblank', 'ghist']
